@@ -4,6 +4,7 @@ use std::io::{BufRead, Write};
 
 mod query;
 mod compile;
+mod effects;
 mod lexparse;
 mod names;
 mod pkg;
